@@ -28,7 +28,6 @@ Qed.
 
 Section Generic.
 Variable P : table -> Prop.
-Variable E : table -> list (str * str) -> Prop.     (* side condition of UpdateTable / AddIndex on the new definitions *)
 Variable U : ictx -> table -> item -> str -> fmap str -> item -> Prop.   (* side condition of UpdateItem: key, expression, names, values *)
 Variable lang_match : str -> item -> item -> fmap str -> outcome bool.
 Variable lang_update : str -> item -> item -> fmap str -> outcome item.
@@ -38,10 +37,12 @@ Hypothesis P_put : forall c t it cond names vals, P t -> P (fst (t_put lang_matc
 Hypothesis P_update : forall c t k e cond names vals, P t -> U c t k e names vals -> P (fst (t_update lang_match lang_update c t k e cond names vals)).
 Hypothesis P_delete : forall c t k cond names vals, P t -> P (fst (t_delete lang_match c t k cond names vals)).
 Hypothesis P_clear : forall t, P t -> P (t_clear t).
-Hypothesis P_empty : forall n h r defs, P {| t_name := n; t_ks := {| hashk := h; rangek := r; secondary := false |}; t_defs := defs; t_sorted := []; t_data := []; t_indexes := [] |}.
+Hypothesis P_empty : forall n oh orr h r defs, check_schema defs oh orr = Some (h, r) ->
+  P {| t_name := n; t_ks := {| hashk := h; rangek := r; secondary := false |}; t_defs := defs; t_sorted := []; t_data := []; t_indexes := [] |}.
 Hypothesis P_agi : forall t ppr d t', P t -> add_global_index t ppr d = Some t' -> P t'.
 Hypothesis P_ali : forall t d t', P t -> t_data t = [] -> add_local_index t d = Some t' -> P t'.
-Hypothesis P_defs : forall t defs, P t -> E t defs ->
+(* UpdateTable re-declares attributes only when Table.CheckAttributeDefinition accepts it (defs_ok) *)
+Hypothesis P_defs : forall t defs, P t -> defs_ok t defs = true ->
   P {| t_name := t_name t; t_ks := t_ks t; t_defs := set_defs (t_defs t) defs; t_sorted := t_sorted t;
        t_data := t_data t; t_indexes := t_indexes t |}.
 Hypothesis P_drop_index : forall t n, P t -> P (with_indexes t (remove n (t_indexes t))).
@@ -54,9 +55,6 @@ Definition CInv (c : client) : Prop :=
 (* the side condition along one step *)
 Definition step_env (c : client) (o : op) : Prop :=
   match o with
-  | OUpdateTable tn defs _ _ => forall t, lookup tn (c_tables c) = Some t -> E t defs
-  | OAddIndex tn _ h r => forall t, lookup tn (c_tables c) = Some t ->
-                           E t ((h, bs "S") :: match r with [] => [] | _ => [(r, bs "S")] end)
   | OUpdate tn k e _ names vals _ => forall t, lookup tn (c_tables c) = Some t -> U (ctx_of c) t k e names vals
   | _ => True
   end.
@@ -176,7 +174,7 @@ Proof.
   intros H. unfold create_table.
   destruct (negb (v1_name_ok flavour (ct_table ct))); [exact H|].
   destruct (mem (ct_table ct) (c_tables c)); [exact H|].
-  destruct (check_schema _ _ _) as [[h r]|]; [|exact H].
+  destruct (check_schema _ _ _) as [[h r]|] eqn:CS; [|exact H].
   destruct (negb (ct_pay_per_request ct) && negb (ct_throughput ct)); [exact H|].
   match goal with |- context [fold_opt ?f (ct_gsi ct) ?t0] => destruct (fold_opt f (ct_gsi ct) t0) as [t1|] eqn:E1 end; [|exact H].
   destruct (fold_opt add_local_index (ct_lsi ct) t1) as [t2|] eqn:E2; [|exact H].
@@ -185,7 +183,7 @@ Proof.
   { eapply (fold_opt_inv Q) in E1; eauto.
     - intros a b a' [[Ha Hn] Hd] Hb. destruct (add_global_index_data _ _ _ _ Hb) as [D N].
       split; [split; [eapply P_agi; eauto|congruence]|congruence].
-    - split; [split; [apply P_empty|reflexivity]|reflexivity]. }
+    - split; [split; [exact (P_empty _ _ _ _ _ _ CS)|reflexivity]|reflexivity]. }
   assert (Q t2) as T2.
   { eapply (fold_opt_inv Q) in E2; eauto.
     intros a b a' [[Ha Hn] Hd] Hb. destruct (add_local_index_data _ _ _ Hb) as [D N].
@@ -197,12 +195,12 @@ Lemma CInv_set_table' c n t : CInv c -> TOk n t -> CInv (set_table c t).
 Proof. intros H [T _]. now apply CInv_set_table. Qed.
 
 Lemma CInv_update_table c tn defs create delete :
-  CInv c -> (forall t, lookup tn (c_tables c) = Some t -> E t defs) ->
-  CInv (fst (update_table flavour c tn defs create delete)).
+  CInv c -> CInv (fst (update_table flavour c tn defs create delete)).
 Proof.
-  intros H He. unfold update_table.
+  intros H. unfold update_table.
   destruct (negb (v1_name_ok flavour tn)); [exact H|].
   destruct (lookup tn (c_tables c)) as [t|] eqn:L; [|exact H].
+  destruct (defs_ok t defs) eqn:He; cbn [negb]; [|exact H].
   pose proof (CInv_P _ _ _ H L) as T.
   set (t1 := {| t_name := t_name t; t_ks := t_ks t; t_defs := set_defs (t_defs t) defs; t_sorted := t_sorted t;
                 t_data := t_data t; t_indexes := t_indexes t |}).
@@ -252,7 +250,7 @@ Proof.
   - pose proof (CInv_create_table c (add_table_input table hash range) H) as Q.
     destruct (create_table flavour c (add_table_input table hash range)); cbn in *; auto.
   - match goal with |- context [update_table flavour c ?a ?b ?d ?e] =>
-      pose proof (CInv_update_table c a b d e H He) as Q; destruct (update_table flavour c a b d e) end; cbn in *; auto.
+      pose proof (CInv_update_table c a b d e H) as Q; destruct (update_table flavour c a b d e) end; cbn in *; auto.
   - destruct (negb (v1_name_ok flavour table)); cbn; auto.
     destruct (lookup table (c_tables c)); cbn; auto. now apply CInv_remove_table.
   - destruct (lookup table (c_tables c)); cbn; auto.
@@ -329,7 +327,7 @@ Variable lang_match : str -> item -> item -> fmap str -> outcome bool.
 Variable lang_update : str -> item -> item -> fmap str -> outcome item.
 Variable flavour : sdk.
 
-Lemma run_env_True ops : forall w, run_env (fun _ _ => True) (fun _ _ _ _ _ _ => True) lang_match lang_update flavour w ops.
+Lemma run_env_True ops : forall w, run_env (fun _ _ _ _ _ _ => True) lang_match lang_update flavour w ops.
 Proof.
   induction ops as [|o ops IH]; intros w; cbn; auto. split; auto.
   destruct (snd o); cbn; auto.
@@ -339,12 +337,12 @@ Theorem TInv_reachable ops cn tn c t :
   lookup cn (fst (run lang_match lang_update flavour [] ops)) = Some c ->
   lookup tn (c_tables c) = Some t -> TInv t.
 Proof.
-  apply (P_reachable TInv (fun _ _ => True) (fun _ _ _ _ _ _ => True) lang_match lang_update flavour).
+  apply (P_reachable TInv (fun _ _ _ _ _ _ => True) lang_match lang_update flavour).
   - apply TInv_put.
   - intros c0 t0 k e cond names vals H _. now apply TInv_update.
   - apply TInv_delete.
   - intros t0 _. apply TInv_clear.
-  - intros n h r defs. split; cbn; [apply wf_nil|reflexivity].
+  - intros n oh orr h r defs _. split; cbn; [apply wf_nil|reflexivity].
   - intros t0 ppr d t' H Ea. destruct (add_global_index_data _ _ _ _ Ea) as [D _].
     unfold add_global_index in Ea. destruct (negb ppr && negb (id_throughput d)); [discriminate|].
     destruct (check_schema _ _ _) as [[h r]|]; [|discriminate]. inversion Ea; subst. exact H.
